@@ -690,11 +690,17 @@ def run_ble_parse(case, R):
     async def main(loop):
         cache = CharacteristicCacheMemory()
         ctl = BleController(char_cache=cache)
-        dev_id = mfr[3:9].hex() if len(mfr) >= 9 else "aabbcc000001"
+        if mfr[:1] == b"\x11":          # encrypted notification: type, length, advertising id
+            dev_id = mfr[2:8].hex() if len(mfr) >= 8 else "aabbcc000001"
+        else:
+            dev_id = mfr[3:9].hex() if len(mfr) >= 9 else "aabbcc000001"
         hkid = ":".join(dev_id[i:i + 2] for i in range(0, 12, 2))
         if pairing != "none":
             if pairing == "cached":
                 cache.async_create_or_update_map(hkid.upper(), 1, BLE_DB, None, 7)
+            elif pairing == "cached-key-state":
+                # everything an encrypted notification needs: broadcast key and a last state number
+                cache.async_create_or_update_map(hkid.upper(), 1, BLE_DB, "ab" * 32, 7)
             elif pairing.startswith("cached-key"):
                 # a broadcast key is cached, the state number is missing (older cache) or 0: the pairing has no description until a regular advertisement arrives
                 cache.async_create_or_update_map(hkid.upper(), 1, BLE_DB, "ab" * 32, None if pairing.endswith("none") else 0)
@@ -726,7 +732,7 @@ def run_ble_parse(case, R):
 def enum_ble_parse(tier):
     full = regular_adv(7, bytes.fromhex("aabbcc000001"))
     enc = bytes([0x11, 0x36]) + bytes.fromhex("aabbcc000001") + bytes(16)
-    for pairing in ("none", "cached", "uncached", "cached-key-none", "cached-key-zero"):
+    for pairing in ("none", "cached", "uncached", "cached-key-none", "cached-key-zero", "cached-key-state"):
         for n in range(0, len(full) + 1):
             yield {"mfr": full[:n], "pairing": pairing}
         for n in range(0, len(enc) + 1):
@@ -751,7 +757,7 @@ def ble_mfr(draw):
         data = bytes(full[:draw(st.integers(0, len(full)))])
     else:
         data = bytes([0x11, draw(st.integers(0, 255))]) + bytes.fromhex("aabbcc000001") + draw(st.binary(max_size=20))
-    return {"mfr": data, "pairing": draw(st.sampled_from(["none", "cached", "uncached", "cached-key-none", "cached-key-zero"])), "company": draw(st.sampled_from([76, 76, 76, 6, 77]))}
+    return {"mfr": data, "pairing": draw(st.sampled_from(["none", "cached", "uncached", "cached-key-none", "cached-key-zero", "cached-key-state", "cached-key-state"])), "company": draw(st.sampled_from([76, 76, 76, 6, 77]))}
 
 
 def fuzz_target(data, R):
